@@ -160,6 +160,7 @@ func main() {
 	checksRepo()
 	checksProto()
 	checksImageV1()
+	checksExtra()
 	checksPure()
 
 	if coverageMode {
